@@ -108,6 +108,15 @@ func feasibleSuccs(b *ssa.BasicBlock) []int {
 // whose atoms contradict each other (same value, both polarities) are pruned.
 // If more than limit paths exist the enumeration stops and complete is false.
 func EnumPaths(from *ssa.BasicBlock, stop func(*ssa.BasicBlock) bool, limit int) (paths []Path, complete bool) {
+	return EnumPathsOpt(from, stop, limit, false)
+}
+
+// EnumPathsOpt is EnumPaths with optional pruning of paths whose atoms
+// contradict each other by rendered expression (same expression with both
+// polarities, or one expression equal to two different constants). byExpr is
+// sound only for functions that do not write the memory their conditions read;
+// use NoFieldStores to establish that.
+func EnumPathsOpt(from *ssa.BasicBlock, stop func(*ssa.BasicBlock) bool, limit int, byExpr bool) (paths []Path, complete bool) {
 	complete = true
 	var blocks []*ssa.BasicBlock
 	var atoms []Atom
@@ -149,6 +158,10 @@ func EnumPaths(from *ssa.BasicBlock, stop func(*ssa.BasicBlock) bool, limit int)
 				contra := false
 				for _, x := range atoms {
 					if x.V == a.V && x.Pos != a.Pos {
+						contra = true
+						break
+					}
+					if byExpr && x.Contradicts(a) {
 						contra = true
 						break
 					}
@@ -241,4 +254,33 @@ func (p Path) IntDelta(v, base ssa.Value) (int64, bool) {
 		}
 	}
 	return 0, false
+}
+
+// NoFieldStores reports whether fn (without its closures) contains no store
+// through a field address, index address or free variable — i.e. it writes
+// only its own local cells. Conditions over parameter fields are then stable
+// across the function as far as fn itself is concerned.
+func NoFieldStores(fn *ssa.Function) bool {
+	ok := true
+	EachInstr(fn, func(i ssa.Instruction) {
+		switch x := i.(type) {
+		case *ssa.Store:
+			switch a := x.Addr.(type) {
+			case *ssa.Alloc:
+			case *ssa.FieldAddr:
+				if _, isAlloc := a.X.(*ssa.Alloc); !isAlloc {
+					ok = false
+				}
+			case *ssa.IndexAddr:
+				if _, isAlloc := a.X.(*ssa.Alloc); !isAlloc {
+					ok = false
+				}
+			default:
+				ok = false
+			}
+		case *ssa.MapUpdate:
+			ok = false
+		}
+	})
+	return ok
 }
